@@ -654,6 +654,25 @@ func commitScenarios(s *scen, rng *rand.Rand, n int, emit func(id, src string, u
 		real.Inputs[idx].UnlockingScript = nil
 		real.Inputs[idx].PreviousTxScript = lock
 		real.Inputs[idx].PreviousTxSatoshis = amount
+		// one scenario in four: the object has already been signed once, then the caller settles an amount (or the
+		// lock time) in place and signs again - the second signature is the one that counts
+		if rng.Intn(4) == 0 {
+			_ = real.FillInput(context.Background(), &unlocker.Simple{PrivateKey: k.priv}, bt.UnlockerParams{InputIdx: uint32(idx), SigHashFlags: sighash.Flag(ht)})
+			real.Inputs[idx].UnlockingScript = nil
+			if len(tx.Outs) > 0 {
+				j := rng.Intn(len(tx.Outs))
+				tx.Outs[j].Sats += 7
+				real.Outputs[j].Satoshis += 7
+			} else {
+				tx.Lt++
+				real.LockTime++
+			}
+			if nin > 1 {
+				o := (idx + 1) % nin
+				tx.Ins[o].Seq ^= 2
+				real.Inputs[o].SequenceNumber ^= 2
+			}
+		}
 		// the transaction as built, to compare with after signing: signing may only fill in
 		// unlocking scripts
 		built := tx.build(idx, bscript.NewFromBytes([]byte{}))
